@@ -227,20 +227,38 @@ def feasible(path: Sequence[Ev]) -> bool:
                 if all(k for k, _ in vals):
                     return True, any(bool(v) for _, v in vals)
         return False, None
+    decided: dict = {}        # source of a call-free test -> (outcome, names it reads, attribute paths it reads)
+
+    def forget(names, attrs=()):
+        for src in [s_ for s_, (_, ns, ats) in decided.items() if (ns & set(names)) or (ats & set(attrs))]:
+            decided.pop(src, None)
     for ev in path:
         n = ev.node
         if ev.kind == 'test':
             k, v = val(n)
             if k and bool(v) != bool(ev.outcome):
                 return False
+            # the same call-free test cannot come out differently twice unless something it reads was assigned in between
+            if not any(isinstance(x, (ast.Call, ast.Await, ast.Yield, ast.NamedExpr)) for x in ast.walk(n)):
+                src = ast.unparse(n)
+                if src in decided and decided[src][0] != bool(ev.outcome):
+                    return False
+                decided[src] = (bool(ev.outcome), {x.id for x in ast.walk(n) if isinstance(x, ast.Name)},
+                                {ast.unparse(x) for x in ast.walk(n) if isinstance(x, ast.Attribute)})
         elif ev.kind in ('stmt',) and n is not None:
             stored = [x.id for x in ast.walk(n) if isinstance(x, ast.Name) and isinstance(x.ctx, (ast.Store, ast.Del))]
+            astored = [ast.unparse(x) for x in ast.walk(n) if isinstance(x, ast.Attribute) and isinstance(x.ctx, (ast.Store, ast.Del))]
+            if any(isinstance(x, ast.Call) for x in ast.walk(n)):
+                decided.clear()          # a call may change any attribute a test read
+            else:
+                forget(stored, astored)
             if isinstance(n, ast.Assign) and len(n.targets) == 1 and isinstance(n.targets[0], ast.Name) and isinstance(n.value, ast.Constant):
                 env[n.targets[0].id] = n.value.value
             else:
                 for s_ in stored:
                     env.pop(s_, None)
         elif ev.kind == 'iter' and n is not None and hasattr(n, 'target'):
+            decided.clear()
             for x in ast.walk(n.target):
                 if isinstance(x, ast.Name):
                     env.pop(x.id, None)
